@@ -307,7 +307,8 @@ def check(src, rep):
             if isinstance(n, ast.If):
                 guard = n
                 break
-        okc = guard is not None and ast.unparse(guard.test).replace(" ", "") in ("notself._is_closing.is_set()",) and any(calls[0] is x for s in guard.body for x in ast.walk(s))
+        closing = [a for a, v in CM.field_inits.items() if isinstance(v, ast.Call) and ast.unparse(v.func).split(".")[-1] == "Event"]
+        okc = guard is not None and len(closing) == 1 and ast.unparse(guard.test).replace(" ", "") == f"notself.{closing[0]}.is_set()" and any(calls[0] is x for s in guard.body for x in ast.walk(s))
     if okb and okc:
         rep.ok("R4", "loss breaker", "flag := (now - last loss) < threshold on every repeated loss, last-loss time always updated, called from connect_loop exactly when the loss is not a close")
     elif not okc:
